@@ -49,20 +49,20 @@ Lemma chk_key_peer x : fst (fst (chk_key x)) = c_peer x. Proof. reflexivity. Qed
 
 Lemma put_node_other q c x : n_peer x <> q -> same_rows q c (put_node c x).
 Proof.
-  intros H. unfold same_rows, nodes_of, svcs_of, chks_of, put_node. cbn.
-  repeat split. apply (filter_tput_other node_key n_peer node_key_peer). exact H.
+  intros H. unfold same_rows, nodes_of, svcs_of, chks_of, put_node.
+  cbn [nodes svcs chks topo set_nodes set_svcs set_chks set_topo]. repeat split. apply (filter_tput_other node_key n_peer node_key_peer). exact H.
 Qed.
 
 Lemma put_svc_other q c x : s_peer x <> q -> same_rows q c (put_svc c x).
 Proof.
-  intros H. unfold same_rows, nodes_of, svcs_of, chks_of, put_svc. cbn.
-  repeat split. apply (filter_tput_other svc_key s_peer svc_key_peer). exact H.
+  intros H. unfold same_rows, nodes_of, svcs_of, chks_of, put_svc.
+  cbn [nodes svcs chks topo set_nodes set_svcs set_chks set_topo]. repeat split. apply (filter_tput_other svc_key s_peer svc_key_peer). exact H.
 Qed.
 
 Lemma put_chk_other q c x : c_peer x <> q -> same_rows q c (put_chk c x).
 Proof.
-  intros H. unfold same_rows, nodes_of, svcs_of, chks_of, put_chk. cbn.
-  repeat split. apply (filter_tput_other chk_key c_peer chk_key_peer). exact H.
+  intros H. unfold same_rows, nodes_of, svcs_of, chks_of, put_chk.
+  cbn [nodes svcs chks topo set_nodes set_svcs set_chks set_topo]. repeat split. apply (filter_tput_other chk_key c_peer chk_key_peer). exact H.
 Qed.
 
 Lemma set_topo_other q c t : same_rows q c (set_topo c t).
@@ -70,14 +70,14 @@ Proof. repeat split. Qed.
 
 Lemma delete_check_other q c p n i : p <> q -> same_rows q c (delete_check c p n i).
 Proof.
-  intros H. unfold same_rows, nodes_of, svcs_of, chks_of, delete_check. cbn.
-  repeat split. apply (filter_tdel_other chk_key c_peer chk_key_peer). exact H.
+  intros H. unfold same_rows, nodes_of, svcs_of, chks_of, delete_check.
+  cbn [nodes svcs chks topo set_nodes set_svcs set_chks set_topo]. repeat split. apply (filter_tdel_other chk_key c_peer chk_key_peer). exact H.
 Qed.
 
 Lemma delete_service_other q c p n i : p <> q -> same_rows q c (delete_service c p n i).
 Proof.
   intros H. unfold delete_service. destruct (get_svc c p n i); [|apply same_rows_refl].
-  unfold same_rows, nodes_of, svcs_of, chks_of. cbn. repeat split.
+  unfold same_rows, nodes_of, svcs_of, chks_of. cbn [nodes svcs chks topo set_nodes set_svcs set_chks set_topo]. repeat split.
   - apply (filter_tdel_other svc_key s_peer svc_key_peer). exact H.
   - apply filter_filter_imp. intros x _ Hx. apply seqb_eq in Hx.
     apply negb_true_iff. seqb_cases (c_peer x) p; [congruence|reflexivity].
@@ -86,7 +86,7 @@ Qed.
 Lemma delete_node_other q c p n : p <> q -> same_rows q c (delete_node c p n).
 Proof.
   intros H. unfold delete_node. destruct (get_node c p n); [|apply same_rows_refl].
-  unfold same_rows, nodes_of, svcs_of, chks_of. cbn. repeat split.
+  unfold same_rows, nodes_of, svcs_of, chks_of. cbn [nodes svcs chks topo set_nodes set_svcs set_chks set_topo]. repeat split.
   - apply (filter_tdel_other node_key n_peer node_key_peer). exact H.
   - apply filter_filter_imp. intros x _ Hx. apply seqb_eq in Hx.
     apply negb_true_iff. seqb_cases (s_peer x) p; [congruence|reflexivity].
@@ -104,20 +104,24 @@ Qed.
 
 (* ------------------------------------------------------------------ registration *)
 
+Lemma ensure_node_byid_other q c nd c1 b :
+  n_peer nd <> q -> ensure_node_byid c nd = Ok (c1, b) -> same_rows q c c1.
+Proof.
+  intros Hq. unfold ensure_node_byid.
+  destruct (seqb (n_id nd) ""); [intros E; injection E as <- _; apply same_rows_refl|].
+  destruct (get_node_by_id c (n_peer nd) (n_id nd)) as [ex|].
+  - destruct (seqb (n_name ex) (n_name nd)); [intros E; injection E as <- _; apply same_rows_refl|].
+    destruct (similar_name_err c nd false); [discriminate|].
+    intros E; injection E as <- _. apply delete_node_other. exact Hq.
+  - destruct (similar_name_err c nd true); [discriminate|].
+    intros E; injection E as <- _. apply same_rows_refl.
+Qed.
+
 Lemma ensure_node_other q c nd c' : n_peer nd <> q -> ensure_node c nd = Ok c' -> same_rows q c c'.
 Proof.
   intros Hq. unfold ensure_node.
-  set (step1 := if seqb (n_id nd) "" then _ else _).
-  assert (Hs : forall c1 b, step1 = Ok (c1, b) -> same_rows q c c1).
-  { subst step1. intros c1 b. destruct (seqb (n_id nd) ""); [intros E; injection E as <- _; apply same_rows_refl|].
-    destruct (get_node_by_id c (n_peer nd) (n_id nd)) as [ex|].
-    - destruct (seqb (n_name ex) (n_name nd)); [intros E; injection E as <- _; apply same_rows_refl|].
-      destruct (similar_name_err c nd false); [discriminate|].
-      intros E; injection E as <- _. apply delete_node_other. exact Hq.
-    - destruct (similar_name_err c nd true); [discriminate|].
-      intros E; injection E as <- _. apply same_rows_refl. }
-  destruct step1 as [[c1 b]|e]; cbn [bind]; [|discriminate].
-  specialize (Hs c1 b eq_refl).
+  destruct (ensure_node_byid c nd) as [[c1 b]|e] eqn:E1; cbn [bind]; [|discriminate].
+  pose proof (ensure_node_byid_other q c nd c1 b Hq E1) as Hs.
   assert (Hput : same_rows q c (put_node c1 nd)).
   { eapply same_rows_trans; [exact Hs | apply put_node_other; exact Hq]. }
   destruct b as [ex|].
@@ -176,34 +180,48 @@ Proof.
     intros E. eapply same_rows_trans; [eapply ensure_check_other; eauto | eapply IH; eauto].
 Qed.
 
+Lemma reg_node_other q c nd c' : n_peer nd <> q -> reg_node c nd = Ok c' -> same_rows q c c'.
+Proof.
+  intros Hq. unfold reg_node. destruct (get_node c (n_peer nd) (n_name nd)) as [ex|].
+  - destruct (node_eqb ex nd); [intros E; injection E as <-; apply same_rows_refl|].
+    apply ensure_node_other; exact Hq.
+  - apply ensure_node_other; exact Hq.
+Qed.
+
+Lemma reg_svc_other q c nd os c' :
+  match os with Some s => s_peer s <> q | None => True end -> reg_svc c nd os = Ok c' -> same_rows q c c'.
+Proof.
+  unfold reg_svc. destruct os as [s0|]; [|intros _ E; injection E as <-; apply same_rows_refl].
+  intros Hq.
+  assert (Hsp : s_peer (svc_set_node (n_name nd) s0) <> q) by exact Hq.
+  destruct (get_svc c (n_peer nd) (n_name nd) (s_id (svc_set_node (n_name nd) s0))) as [ex|].
+  - destruct (svc_is_same ex _); [intros E; injection E as <-; apply same_rows_refl|].
+    apply ensure_service_other; exact Hsp.
+  - apply ensure_service_other; exact Hsp.
+Qed.
+
+Lemma register_inv c r c' :
+  register c r = Ok c' ->
+  reg_peers_ok r = true /\
+  exists c1 c2, reg_node c (r_node r) = Ok c1 /\ reg_svc c1 (r_node r) (r_svc r) = Ok c2
+                /\ ensure_checks c2 (n_name (r_node r)) (r_chks r) = Ok c'.
+Proof.
+  unfold register. destruct (reg_peers_ok r); cbn [negb]; [|discriminate].
+  destruct (reg_node c (r_node r)) as [c1|e] eqn:E1; cbn [bind]; [|discriminate].
+  destruct (reg_svc c1 (r_node r) (r_svc r)) as [c2|e] eqn:E2; cbn [bind]; [|discriminate].
+  intros E3. split; [reflexivity|]. exists c1, c2. auto.
+Qed.
+
 Lemma register_other q c r c' : n_peer (r_node r) <> q -> register c r = Ok c' -> same_rows q c c'.
 Proof.
-  intros Hq. unfold register.
-  set (p := n_peer (r_node r)) in *.
-  destruct (match r_svc r with Some s => seqb (s_peer s) p | None => true end
-            && forallb (fun k => seqb (c_peer k) p) (r_chks r)) eqn:Hp; cbn [negb]; [|discriminate].
-  apply andb_true_iff in Hp as [Hps Hpc].
-  set (r1 := match get_node c p (n_name (r_node r)) with _ => _ end).
-  destruct r1 as [c1|e] eqn:E1; cbn [bind]; [|discriminate].
-  assert (H1 : same_rows q c c1).
-  { subst r1. destruct (get_node c p (n_name (r_node r))) as [ex|].
-    - destruct (node_eqb ex (r_node r)); [injection E1 as <-; apply same_rows_refl|].
-      eapply ensure_node_other; eauto.
-    - eapply ensure_node_other; eauto. }
-  set (r2 := match r_svc r with None => Ok c1 | Some s0 => _ end).
-  destruct r2 as [c2|e] eqn:E2; cbn [bind]; [|discriminate].
-  assert (H2 : same_rows q c1 c2).
-  { subst r2. destruct (r_svc r) as [s0|]; [|injection E2 as <-; apply same_rows_refl].
-    apply seqb_eq in Hps.
-    assert (Hsp : s_peer (svc_set_node (n_name (r_node r)) s0) <> q) by (cbn; congruence).
-    destruct (get_svc c1 p (n_name (r_node r)) (s_id (svc_set_node (n_name (r_node r)) s0))) as [ex|].
-    - destruct (svc_is_same ex _); [injection E2 as <-; apply same_rows_refl|].
-      eapply ensure_service_other; eauto.
-    - eapply ensure_service_other; eauto. }
-  intros E3. eapply same_rows_trans; [exact H1|]. eapply same_rows_trans; [exact H2|].
-  eapply ensure_checks_other; [|exact E3].
-  apply Forall_forall. intros k Hk. rewrite forallb_forall in Hpc. specialize (Hpc k Hk).
-  apply seqb_eq in Hpc. congruence.
+  intros Hq H. apply register_inv in H as (Hp & c1 & c2 & E1 & E2 & E3).
+  unfold reg_peers_ok in Hp. apply andb_true_iff in Hp as [Hps Hpc].
+  eapply same_rows_trans; [eapply reg_node_other; eauto|].
+  eapply same_rows_trans; [eapply reg_svc_other; [|exact E2]|].
+  - destruct (r_svc r) as [s|]; [|exact I]. apply seqb_eq in Hps. congruence.
+  - eapply ensure_checks_other; [|exact E3].
+    apply Forall_forall. intros k Hk. rewrite forallb_forall in Hpc. specialize (Hpc k Hk).
+    apply seqb_eq in Hpc. congruence.
 Qed.
 
 Lemma apply_op_other q c o : op_peer o <> q -> same_rows q c (apply_op c o).
@@ -278,6 +296,12 @@ Section HInv.
     destruct (seqb (c_sid k) ""); cbn; [exact Ha|]. apply P_dereg; [reflexivity|exact Ha].
   Qed.
 
+  Lemma stored_blocks_inv h l : forall a, P (p2_st a) -> P (p2_st (fold_left (stored_block p h) l a)).
+  Proof.
+    induction l as [|i l IH]; intros a Ha; cbn [fold_left]; [exact Ha|].
+    apply IH. apply stored_block_inv. exact Ha.
+  Qed.
+
   Lemma unused_block_inv s n : P s -> P (unused_block p s n).
   Proof.
     intros Hs. unfold unused_block. destruct (h_err s); [exact Hs|].
@@ -298,10 +322,7 @@ Section HInv.
       pose proof (nhs_node_peer p (match export with Some l => l | None => [] end)) as Hf.
       rewrite Forall_forall in Hf. apply Hf. exact Hx. }
     set (a := fold_left (stored_block p h) stored (P2 s1 [] [])).
-    assert (Ha : P (p2_st a)).
-    { subst a. generalize (P2 s1 [] []) (H1 : P (p2_st (P2 s1 [] []))).
-      induction stored as [|i l IH]; intros a0 Ha0; cbn [fold_left]; [exact Ha0|].
-      apply IH. apply stored_block_inv. exact Ha0. }
+    assert (Ha : P (p2_st a)) by (subst a; apply stored_blocks_inv; exact H1).
     set (s2 := fold_left _ (sh_dnc sh (p2_dnc a)) (p2_st a)).
     assert (H2 : P s2).
     { subst s2. apply fold_inv; [|exact Ha]. intros s ck _ Hs. apply P_dereg; [reflexivity|exact Hs]. }
